@@ -43,7 +43,7 @@ def signature(case, idx, verdict):
 
 def check(ctx):
     # bodies of CaManager::rfc6492 and CertAuth::verify_rfc6492 regenerated from the source; C12Src: = the model's rfc6492
-    vlib.translate(ctx, [("pure_fns:C12", "PureFns.lean")])
+    vlib.translate(ctx, [("pure_fns:C12", "PureFnsC12.lean")])
     vlib.prove(ctx, ["KrillModel.Props.C12", "KrillModel.Props.C12Src"])
     pc.private_kmodel(ctx)
     found = False
